@@ -422,9 +422,9 @@ class StmtsMixin:
             h = st.clone()
             self.havoc_loop_state(h, vs, fs, calls, spec, s)
             henv = SpecEnv(h, {}, entry_old)
-            self.loop_hints(h, spec, 'head')
             for cl in invs:
                 h.assume(self.sev_bool(henv, cl.expr))
+            self.loop_hints(h, spec, 'head')            # hints may rely on the invariant
             variant0 = None
             if spec.get('decreases'):
                 variant0 = self.sev(henv, spec['decreases'][0].expr)
